@@ -446,7 +446,7 @@ func (s *Sim) grantable(t *Task) bool {
 		// a peer that has stopped reading: once the send window is full a Write blocks until the connection is
 		// closed (the library sets no write deadline)
 		c := r.conn
-		return !c.PeerStalled || c.clientClosed || c.stalledBytes+len(r.buf) <= c.SendWindow
+		return !c.PeerStalled || c.clientClosed || c.stalledBytes+len(r.buf) <= c.SendWindow || (c.wdlSet && s.now >= c.wdl)
 	case opOnce:
 		os := s.onceOf(r.obj)
 		return os.done || os.running == nil || os.running == t
